@@ -70,7 +70,7 @@ def run(R):
               'each direction is encrypted by one side and decrypted by the other; packet layout contract on every encrypt; signature cases = (key, message) with '
               'all 512 single-bit flips of the signature, neighbouring messages, other keys; mnemonics sampled from mnemonic_new() and produced by it under a steered entropy source (basic seeds with rare digest contents); distinct = distinct case tuple; '
               'non-trivial = plaintext non-empty / any signature case')
-    R.assumptions = ['libsodium (PyNaCl), x25519 and pycryptodome are trusted', 'mnemonic_new is sampled with its default word count',
+    R.assumptions = ['libsodium (PyNaCl), x25519 and pycryptodome are trusted', 'mnemonic_new is sampled with its default word count and with 12 / 18 / 32 words (recorded finding: the validator accepts 24 words only)',
                      '"fails" for a signature = verify_sign returns False or raises']
     C = ChannelContracts(R).install()
     try:
@@ -296,6 +296,16 @@ def run(R):
             R.count('mnemonics_with_password')
             R.case(mon.fp('mnpw', tuple(words)))
         R.check(keys.mnemonic_is_valid(['abandon'] * 23) is False, 'short-mnemonic-valid', '23-word mnemonic accepted', {})
+        # the generator's other parameter: a word count other than the default 24 (its output is a generated mnemonic too)
+        for wc in (12, 18, 32):
+            st, words = mon.call(keys.mnemonic_new, wc)
+            R.counters['oracle_evaluations'] += 1
+            R.count('mnemonics_other_word_count')
+            if st == 'exc':
+                R.exc(words)         # refusing an unsupported word count is consistent with the validator
+                continue
+            st, ok = mon.call(keys.mnemonic_is_valid, words)
+            R.check(st == 'ok' and ok is True, 'generated-mnemonic-invalid-other-word-count', f'mnemonic_new({wc}) returned {len(words)} words which mnemonic_is_valid calls invalid', {'word_count': wc})
         steered_mnemonics(R, keys, rng, 1 if quick else 6)
     finally:
         C.uninstall()
